@@ -894,4 +894,71 @@ theorem invS'_of_reachable {s : St} (h : Reachable s) : InvS' s := by
   | init => exact invS'_init
   | step a _ hs ih => exact invS'_step a ih hs
 
+theorem invS_init : InvS init := invS'_init.toInvS
+
+theorem invSX_init : InvSX init := invS'_init.toInvSX
+
+/-- `InvS` is preserved by every step, given the two extra facts `InvSX` about background threads … -/
+theorem invS_step {s s' : St} (a : Actor) (h : InvS s) (hx : InvSX s) (hs : step s a = some s') : InvS s' :=
+  (invS'_step a (InvS'.of_InvS h hx) hs).toInvS
+
+/-- … which are preserved as well -/
+theorem invSX_step {s s' : St} (a : Actor) (h : InvS s) (hx : InvSX s) (hs : step s a = some s') : InvSX s' :=
+  (invS'_step a (InvS'.of_InvS h hx) hs).toInvSX
+
+theorem invS_of_reachable {s : St} (h : Reachable s) : InvS s := (invS'_of_reachable h).toInvS
+
+theorem invSX_of_reachable {s : St} (h : Reachable s) : InvSX s := (invS'_of_reachable h).toInvSX
+
+/-- one step from a reachable state keeps `InvS` (the form of `invS_step` that needs no extra hypothesis) -/
+theorem invS_step_of_reachable {s s' : St} (a : Actor) (h : Reachable s) (hs : step s a = some s') : InvS s' :=
+  invS_of_reachable (Reachable.step a h hs)
+
+/-! ### `InvS` alone is not inductive
+
+A (unreachable) state in which a background thread at `b0` carries a stale `result` satisfies `InvS`
+(`result_ok` only speaks about `bg = false`); `.stop` makes the thread a client again and `result_ok` fails. -/
+
+def cexS : St :=
+  { loc := fun t => if t = 0 then { pc := .b0, bg := true, result := some (.value (some true) (some 0)) } else {} }
+
+theorem cexS_loc (t : Tid) : cexS.loc t = { pc := .b0, bg := true, result := some (.value (some true) (some 0)) } ∨
+    cexS.loc t = {} := by
+  by_cases h : t = 0
+  · exact .inl (if_pos h)
+  · exact .inr (if_neg h)
+
+theorem invS_cexS : InvS cexS where
+  issued_lt := by simp [cexS]
+  issued_nodup := by simp [cexS]
+  seq_issued := fun t => by rcases cexS_loc t with h | h <;> rw [h] <;> simp [Loc.hasSeq]
+  seq_inj := fun t u => by rcases cexS_loc t with h | h <;> rw [h] <;> simp [Loc.hasSeq]
+  fresh := fun _ _ => ⟨rfl, rfl, by simp [cexS], rfl, rfl⟩
+  at_c1 := fun t => by rcases cexS_loc t with h | h <;> rw [h] <;> simp [Loc.hasSeq]
+  at_c2 := fun t => by rcases cexS_loc t with h | h <;> rw [h] <;> simp [Loc.hasSeq]
+  out_nodup := by simp [cexS]
+  out_unanswered := by simp [cexS]
+  reg_clean := by simp [cexS]
+  cb_pc := fun t => by rcases cexS_loc t with h | h <;> rw [h] <;> simp
+  completing := fun t => by rcases cexS_loc t with h | h <;> rw [h] <;> simp [PC.completing]
+  chan_answer := by simp [cexS]
+  data_answer := fun t => by rcases cexS_loc t with h | h <;> rw [h] <;> simp
+  obj_answer := by simp [cexS]
+  exc_answer := by simp [cexS]
+  compl_le := by simp [cexS]
+  ready_compl := by simp [cexS]
+  at_w10 := fun t => by rcases cexS_loc t with h | h <;> rw [h] <;> simp [Loc.hasSeq]
+  result_ok := fun t => by rcases cexS_loc t with h | h <;> rw [h] <;> simp
+  self_dispatch := fun t => by rcases cexS_loc t with h | h <;> rw [h] <;> simp [Loc.hasSeq]
+  dl_ttl := fun t => by rcases cexS_loc t with h | h <;> rw [h] <;> simp [Loc.hasSeq]
+  wdl_le := fun t => by rcases cexS_loc t with h | h <;> rw [h] <;> simp
+
+/-- `invS_step` without `InvSX` is false -/
+theorem invS_not_inductive : ∃ s s' a, InvS s ∧ step s a = some s' ∧ ¬ InvS s' := by
+  refine ⟨cexS, setLoc cexS 0 { cexS.loc 0 with pc := .idle, bg := false }, .stop 0, invS_cexS, ?_, ?_⟩
+  · simp [step, cexS]
+  · intro h
+    obtain ⟨e', v, ha, _⟩ := h.result_ok 0 (some true) (some 0) (by simp) (by simp [cexS])
+    simp [cexS] at ha
+
 end Rpyc.Conc.Serve
